@@ -23,8 +23,8 @@ DEPS = {
     "C01": ["theories/Proofs/CommThms.vo", "theories/Proofs/WinCommProofs.vo"], "C02": ["theories/Proofs/CommThms.vo", "theories/Proofs/WinCommProofs.vo"],
     "C03": ["theories/Proofs/CommThms.vo", "theories/Proofs/WinCommProofs.vo"],
     "C04": ["theories/Proofs/CommThms.vo", "theories/Proofs/CommTime.vo", "theories/Proofs/WinCommProofs.vo"],
-    "C09": ["theories/Proofs/PopenProofs.vo", "theories/Proofs/StatusProofs.vo"],
-    "C10": ["theories/Proofs/PopenProofs.vo"], "C11": ["theories/Proofs/PopenProofs.vo"],
+    "C09": ["theories/Proofs/PopenProofs.vo", "theories/Proofs/StatusProofs.vo", "theories/Proofs/JobCtlProofs.vo"],
+    "C10": ["theories/Proofs/PopenProofs.vo", "theories/Proofs/JobCtlProofs.vo"], "C11": ["theories/Proofs/PopenProofs.vo"],
 }
 
 
@@ -155,6 +155,11 @@ def run(chk, tier, pid, explicit=None):
         # the cfg(windows) thread-based communicator, same properties, its own model (Lib/WinComm.v)
         import wincomm
         wincomm.run_part(chk, pid, tier)
+    if pid == "C09" and explicit is None:
+        # real children that exit with every code / die of every fatal signal: the reported status against the cause
+        # and against Lib/Status.v on the raw status the kernel returned
+        import pipeprops
+        pipeprops.c09_real(chk, tier)
     if pid == "C01" and explicit is None:
         # the same exchange with real processes and real pipes (capture / communicate of commands and pipelines):
         # the kernel model's assumption that a pipe end is held only by the processes it was wired to
@@ -198,7 +203,10 @@ def replay(chk, path, pid):
         import pipeprops
         chk.obligations(C.props_check(pid, DEPS[pid]))
         C.build_harness()
-        pipeprops.c01_real(chk, "quick", explicit=[pipeprops.tpl_from_json(lines[1])])
+        if pid == "C09":
+            pipeprops.c09_real(chk, "quick", explicit=[pipeprops.tpl_from_json(lines[1])])
+        else:
+            pipeprops.c01_real(chk, "quick", explicit=[pipeprops.tpl_from_json(lines[1])])
         return
     scns = load_scn_file(path)
     run(chk, "quick", pid, explicit=scns)
